@@ -338,6 +338,9 @@ func ParseOTPAuthURL(u *url.URL) (*URLParam, error) {
 
 	if digitsStr := query.Get("digits"); digitsStr != "" {
 		if digitsInt, err := strconv.Atoi(digitsStr); err == nil {
+			if digitsInt < 0 || digitsInt > 255 {
+				return nil, fmt.Errorf("invalid digits value: %s", digitsStr)
+			}
 			param.Digits = Digits(digitsInt)
 		} else {
 			return nil, fmt.Errorf("invalid digits value: %s", digitsStr)
@@ -359,6 +362,9 @@ func ParseOTPAuthURL(u *url.URL) (*URLParam, error) {
 
 	if periodStr := query.Get("period"); periodStr != "" {
 		if p, err := strconv.Atoi(periodStr); err == nil {
+			if p < 0 {
+				return nil, fmt.Errorf("invalid period value: %s", periodStr)
+			}
 			param.Period = uint(p)
 		} else {
 			return nil, fmt.Errorf("invalid period value: %s", periodStr)
